@@ -35,6 +35,8 @@ type GenCorpus struct {
 	// TolerateErr: type errors of the generated package matching this pattern do not stop the load (a recorded
 	// finding makes the generator emit redeclared constants; the table literal is still verified)
 	TolerateErr string
+	// PathStructs: also generate the path-struct API (ypathgen) into the same package (needs -compress_paths)
+	PathStructs bool
 }
 
 // toleratedGenErrs: generated package path suffix -> pattern of type errors that are tolerated (see GenCorpus).
@@ -85,6 +87,17 @@ func corpusFor(prop, repoDir, verifDir string) []GenCorpus {
 			all = all[:6]
 		}
 	}
+	if prop == "C29" {
+		// path-struct API: the compressed repository schema and the key-type corpus (compressed), each generated
+		// together with its path structs into one package
+		ct := all[1]
+		ct.PathStructs = true
+		vl := all[0]
+		vl.Pkg, vl.PathStructs = "vlistsc", true
+		vl.Flags = append(append([]string{}, vl.Flags...), "-compress_paths")
+		vl.Comment = "key-type corpus, compressed paths, with path structs"
+		all = []GenCorpus{ct, vl}
+	}
 	// VERIF_GEN_ONLY=pkg[,pkg]: restrict the corpus (self-test runs and debugging)
 	if only := os.Getenv("VERIF_GEN_ONLY"); only != "" {
 		var out []GenCorpus
@@ -97,7 +110,7 @@ func corpusFor(prop, repoDir, verifDir string) []GenCorpus {
 		}
 		return out
 	}
-	if genTier == "quick" && prop != "C17" {
+	if genTier == "quick" && prop != "C17" && prop != "C29" {
 		// quick: the key-type corpus and the compressed repository schema; thorough adds the uncompressed one
 		// (same templates, three more ordered maps and three more keyed lists)
 		return all[:2]
@@ -143,17 +156,32 @@ func generateCorpus(repoDir, verifDir string, corpus []GenCorpus, props map[stri
 	if err != nil {
 		return dir, nil, nil, nil, err
 	}
+	if ptpl, e := readTemplates(filepath.Join(repoDir, "ypathgen", "zz_contracts_verif.go")); e == nil {
+		// templates for the generated path-struct API: its header lines join the common header
+		for _, s := range ptpl {
+			if s.Kind == "header" {
+				tpl[0].Lines = append(tpl[0].Lines, s.Lines...)
+			} else {
+				tpl = append(tpl, s)
+			}
+		}
+	}
 	overlay = map[string][]byte{}
 	for _, gc := range corpus {
 		pd := filepath.Join(dir, gc.Pkg)
 		os.MkdirAll(pd, 0o755)
 		out := filepath.Join(pd, gc.Pkg+".go")
 		args := append([]string{"-path=" + gc.Path, "-output_file=" + out, "-package_name=" + gc.Pkg}, gc.Flags...)
+		pathOut := ""
+		if gc.PathStructs {
+			pathOut = filepath.Join(pd, gc.Pkg+"_path.go")
+			args = append(args, "-generate_path_structs", "-path_structs_output_file="+pathOut)
+		}
 		args = append(args, gc.Yang...)
 		if err = run(pd, gen, args...); err != nil {
 			return dir, nil, nil, nil, fmt.Errorf("generator on %s: %v", gc.Pkg, err)
 		}
-		insts, spec, e := bindTemplates(tpl, gc, out, props)
+		insts, spec, e := bindTemplates(tpl, gc, out, pathOut, props)
 		if e != nil {
 			return dir, nil, nil, nil, fmt.Errorf("binding contract templates to %s: %v", gc.Pkg, e)
 		}
@@ -164,6 +192,11 @@ func generateCorpus(repoDir, verifDir string, corpus []GenCorpus, props map[stri
 		overlay[filepath.Join(vdir, gc.Pkg+".go")] = src
 		overlay[filepath.Join(vdir, "zz_contracts_verif.go")] = []byte(spec)
 		genOverlayFiles[filepath.Join(vdir, gc.Pkg+".go")] = out
+		if pathOut != "" {
+			psrc, _ := os.ReadFile(pathOut)
+			overlay[filepath.Join(vdir, gc.Pkg+"_path.go")] = psrc
+			genOverlayFiles[filepath.Join(vdir, gc.Pkg+"_path.go")] = pathOut
+		}
 		patterns = append(patterns, "./"+genDirName+"/"+gc.Pkg)
 		if gc.TolerateErr != "" {
 			toleratedGenErrs["/"+genDirName+"/"+gc.Pkg] = regexp.MustCompile(gc.TolerateErr)
@@ -235,7 +268,7 @@ type listInst struct {
 
 var docPathRe = regexp.MustCompile(`represents the (\S+) YANG schema element`)
 
-func bindTemplates(tpl []tplSection, gc GenCorpus, goFile string, props map[string]bool) ([]string, string, error) {
+func bindTemplates(tpl []tplSection, gc GenCorpus, goFile, pathFile string, props map[string]bool) ([]string, string, error) {
 	fset := token.NewFileSet()
 	f, err := parser.ParseFile(fset, goFile, nil, parser.ParseComments)
 	if err != nil {
@@ -463,6 +496,118 @@ func bindTemplates(tpl []tplSection, gc GenCorpus, goFile string, props map[stri
 		}
 		if n > 0 {
 			report = append(report, fmt.Sprintf("%s.%s (enumtype)", gc.Pkg, en))
+		}
+	}
+	// path-struct accessors (ypathgen): one instance per child accessor method of a path struct whose GoStruct and
+	// field are found; the expected relative path is the first alternative of that field's `path` tag, the expected
+	// keys are the list's key leaves (a key without a parameter of its Go name is a wildcard)
+	if pathFile != "" {
+		pf, err := parser.ParseFile(fset, pathFile, nil, 0)
+		if err != nil {
+			return nil, "", err
+		}
+		tagRe := regexp.MustCompile(`path:"([^"]*)"`)
+		for _, d := range pf.Decls {
+			fd, ok := d.(*ast.FuncDecl)
+			if !ok || fd.Recv == nil || len(fd.Recv.List) != 1 || fd.Type.Results == nil || len(fd.Type.Results.List) != 1 {
+				continue
+			}
+			se, ok := fd.Recv.List[0].Type.(*ast.StarExpr)
+			if !ok {
+				continue
+			}
+			rid, ok := se.X.(*ast.Ident)
+			if !ok || !(strings.HasSuffix(rid.Name, "Path") || strings.HasSuffix(rid.Name, "PathAny")) {
+				continue
+			}
+			S := strings.TrimSuffix(strings.TrimSuffix(rid.Name, "Any"), "Path")
+			st := structs[S]
+			if st == nil {
+				continue
+			}
+			field := func(name string) *ast.Field {
+				for _, fl := range st.Fields.List {
+					if len(fl.Names) == 1 && fl.Names[0].Name == name && fl.Tag != nil {
+						return fl
+					}
+				}
+				return nil
+			}
+			M := fd.Name.Name
+			F, fl := M, field(M)
+			if fl == nil {
+				if i := strings.Index(M, "Any"); i > 0 {
+					F, fl = M[:i], field(M[:i])
+				}
+			}
+			if fl == nil {
+				continue
+			}
+			tm := tagRe.FindStringSubmatch(fl.Tag.Value)
+			if tm == nil {
+				continue
+			}
+			names := strings.Split(strings.Split(tm[1], "|")[0], "/")
+			rel := []string{fmt.Sprintf("len(X) == %d", len(names))}
+			for i, nm := range names {
+				rel = append(rel, fmt.Sprintf("X[%d] == %q", i, nm))
+			}
+			params := map[string]bool{}
+			for _, p := range fd.Type.Params.List {
+				for _, nm := range p.Names {
+					params[nm.Name] = true
+				}
+			}
+			keys := "forall s string :: !in(s, X)"
+			for _, in := range insts {
+				if in.Parent != S || in.Field != F {
+					continue
+				}
+				ks, _, err := keysOf(in.V, in.K)
+				if err != nil {
+					return nil, "", err
+				}
+				var dom, vals []string
+				for _, k := range ks {
+					dom = append(dom, fmt.Sprintf("s == %q", k.Yang))
+					if params[k.Field] {
+						vals = append(vals, fmt.Sprintf("X[%q] == boxof(%s)", k.Yang, k.Field))
+					} else {
+						vals = append(vals, fmt.Sprintf("X[%q] == boxof(\"*\")", k.Yang))
+					}
+				}
+				keys = "(forall s string :: in(s, X) == (" + strings.Join(dom, " || ") + ")) && " + strings.Join(vals, " && ")
+			}
+			macro := func(l, name, body string) string {
+				for {
+					i := strings.Index(l, name+"(")
+					if i < 0 {
+						return l
+					}
+					e := matchParen(l, i+len(name))
+					if e < 0 {
+						return l
+					}
+					arg := l[i+len(name)+1 : e]
+					l = l[:i] + "(" + replaceSymbol(body, "X", arg) + ")" + l[e+1:]
+				}
+			}
+			n := 0
+			for _, s := range tpl {
+				if s.Kind != "pathaccessor" {
+					continue
+				}
+				for _, l := range s.Lines {
+					l = strings.ReplaceAll(strings.ReplaceAll(l, "$R", rid.Name), "$M", M)
+					l = macro(l, "$RELPATHIS", strings.Join(rel, " && "))
+					l = macro(l, "$KEYSARE", keys)
+					out.WriteString(l + "\n")
+				}
+				n++
+			}
+			if n > 0 {
+				report = append(report, fmt.Sprintf("%s.(*%s).%s (pathaccessor, %s)", gc.Pkg, rid.Name, M, strings.Join(names, "/")))
+			}
 		}
 	}
 	return report, out.String(), nil
